@@ -4,7 +4,7 @@ Mirrors, function by function:
 * portable integers: `esl_byteswap`, `esl_hton16/32/64`, `esl_ntoh16/32/64`, `esl_fwrite_u16/u32/u64/i64/offset`,
   `esl_fread_u16/u32/u64/i64/offset` (little-endian host, `sizeof(off_t) = 8`);
 * writer: `esl_newssi_Open/AddFile/SetSubseq/AddKey/AddAlias/Write/Close`, `current_newssi_size`,
-  `activate_external_sort`, `parse_pkey`, `parse_skey`, `pkeysort`, `skeysort`; from easel.c `esl_FileTail`,
+  `activate_external_sort`, `parse_pkey`, `parse_skey`, `pkeysort`, `skeysort`, `cross_duplicate`; from easel.c `esl_FileTail`,
   `esl_strtok`, `strncpy`/`strcmp`/`strtoull`/`atoi` on NUL-free strings;
 * reader: `esl_ssi_Open`, `binary_search`, `esl_ssi_FindName`, `esl_ssi_FindNumber`, `esl_ssi_FindSubseq`,
   `esl_ssi_FileInfo`.
@@ -293,6 +293,26 @@ def writeSKeys {α : Type} (get : α → Except St SKey) (plen slen : Nat) : Byt
         | .error e => .error e
         | .ok out => .ok (sk ++ pk ++ out)
 
+/-- `cross_duplicate`: after both key classes are sorted, one merge pass over the two sorted streams looks for a key
+    that is both a primary key and an alias (`eslEDUP`). `getP`/`getS` are the identity in internal mode and
+    `parse_pkey`/`parse_skey` on the current tmp-file line in external mode (a failure is `eslESYS`); the C loop reads
+    only the stream it just advanced in, the model parses the (unchanged) current line of the other one again. -/
+def crossDup {α β : Type} (getP : α → Except St PKey) (getS : β → Except St SKey) : List α → List β → Except St Unit
+  | [], _ => .ok ()
+  | _ :: _, [] => .ok ()
+  | x :: xs, y :: ys =>
+    match getP x with
+    | .error _ => .error .esys
+    | .ok p =>
+      match getS y with
+      | .error _ => .error .esys
+      | .ok s =>
+        match strcmp p.key s.key with
+        | .eq => .error .edup
+        | .lt => crossDup getP getS xs (y :: ys)
+        | .gt => crossDup getP getS (x :: xs) ys
+termination_by l1 l2 => l1.length + l2.length
+
 def fileRecord (flen : Nat) (f : FileRec) : Bytes :=
   strncpy flen f.name ++ enc32 f.fmt ++ enc32 (if f.bpl > 0 ∧ f.rpl > 0 then 1 else 0) ++ enc32 f.bpl ++ enc32 f.rpl
 
@@ -314,6 +334,12 @@ def NewSsi.header (ns : NewSsi) : Bytes :=
 def NewSsi.writeBytes (ns : NewSsi) : Except St Bytes :=
   if ns.flen = 0 then .error .emem            -- ESL_ALLOC(fk, 0)
   else
+    let cross :=
+      if ns.external then crossDup parsePKey parseSKey (sortLines ns.ptmp) (sortLines ns.stmp)
+      else crossDup (fun k => .ok k) (fun k => .ok k) (sortPKeys ns.pkeys) (sortSKeys ns.skeys)
+    match cross with
+    | .error e => .error e
+    | .ok () =>
     let hdr := ns.header
     let fsec := (ns.files.map (fileRecord ns.flen)).flatten
     let psec :=
